@@ -401,35 +401,71 @@ def run(tier):
     return rep
 
 
-def _id_leaves(f, op, depth=10, seen=None):
+def _id_leaves(f, op, depth=14, seen=None):
+    """where an anchor id comes from: constants, parameters, calls - followed through copies, tuples, Ok/Some/Continue wrappers and the
+    `?` operator (an id may be returned by a helper inside a Result<(usize, ..), _>)"""
     seen = seen if seen is not None else set()
     c = op_const(op)
     if c is not None:
         return [("const", const_value(c))]
-    l = is_local(op)
-    if l is None:
+    p = op_place(op)
+    if p is None:
         return [("place",)]
-    return _id_leaves_local(f, l, depth, seen)
+    return _id_leaves_place(f, p["l"], list(p["p"]), depth, seen)
 
 
 def _id_leaves_local(f, l, depth, seen):
-    if l in seen or depth <= 0:
+    return _id_leaves_place(f, l, [], depth, seen)
+
+
+def _id_leaves_place(f, l, proj, depth, seen):
+    key = (l, tuple((e.get("k"), e.get("i"), e.get("v")) for e in proj))
+    if key in seen or depth <= 0:
         return []
-    seen.add(l)
+    seen.add(key)
     ds = cfg.defs_of_local(f, l)
     if not ds:
-        return [("param", l)] if 1 <= l <= f.arg_count else [("undef", l)]
+        return [("param", l)] if 1 <= l <= f.arg_count and not proj else ([("param-part", l)] if 1 <= l <= f.arg_count else [("undef", l)])
     out = []
     for d in ds:
         if d[0] == "call":
-            fr = d[2]["f"].get("fn")
-            out.append(("call", fr["key"] if fr else None))
-        else:
-            rv = d[3]["rv"]
-            if rv["k"] == "use":
-                out += _id_leaves(f, rv["a"], depth - 1, seen)
+            t = d[2]
+            fr = t["f"].get("fn")
+            ck = (fr.get("resolved") or fr["key"]) if fr else None
+            if ck and ck.endswith("Try>::branch") and len(proj) >= 2 and proj[0].get("k") == "downcast" and proj[0].get("v") == "Continue" and proj[1].get("k") == "field":
+                a = op_place(t["args"][0])
+                if a is not None:
+                    out += _id_leaves_place(f, a["l"], list(a["p"]) + [{"k": "downcast", "v": "Ok"}, {"k": "field", "i": 0}] + proj[2:], depth - 1, seen)
+                    continue
+            if ck and ck.endswith("::from_residual") and proj and proj[0].get("k") == "downcast" and proj[0].get("v") in ("Ok", "Some", "Continue"):
+                continue              # an error being propagated: it has no Ok payload
+            out.append(("call", ck) if not proj else ("call-part", ck))
+            continue
+        rv = d[3]["rv"]
+        if rv["k"] == "use":
+            c = op_const(rv["a"])
+            if c is not None:
+                out.append(("const", const_value(c)))
+                continue
+            q = op_place(rv["a"])
+            if q is None:
+                out.append(("place",))
             else:
-                out.append(("rv", rv["k"]))
+                out += _id_leaves_place(f, q["l"], list(q["p"]) + proj, depth - 1, seen)
+        elif rv["k"] == "agg" and proj:
+            pr = proj
+            if pr[0].get("k") == "downcast":
+                if rv.get("variant") != pr[0].get("v"):
+                    continue          # another variant was stored on this path
+                pr = pr[1:]
+            if pr and pr[0].get("k") == "field" and pr[0].get("i") is not None and pr[0]["i"] < len(rv["ops"]):
+                out += _id_leaves(f, rv["ops"][pr[0]["i"]], depth - 1, seen) if not pr[1:] else \
+                    (_id_leaves_place(f, op_place(rv["ops"][pr[0]["i"]])["l"], list(op_place(rv["ops"][pr[0]["i"]])["p"]) + pr[1:], depth - 1, seen)
+                     if op_place(rv["ops"][pr[0]["i"]]) is not None else [("rv", "agg")])
+            else:
+                out.append(("rv", "agg"))
+        else:
+            out.append(("rv", rv["k"]))
     return out
 
 
